@@ -227,12 +227,13 @@ func drawFault(t *rapid.T) Case {
 
 func drawValid(t *rapid.T) Case {
 	c := drawBase(t)
+	g := vk.NewSplitMix(word(t, "pickmode"))
 	sp := byName[c.R]
 	modes := []string{"", "min", "min", "guardE", "guardE", "guardS"}
 	if sp.lw {
 		modes = append(modes, "query", "query", "minlwork")
 	}
-	switch m := rapid.SampledFrom(modes).Draw(t, "mode"); m {
+	switch m := modes[g.Intn(len(modes))]; m {
 	case "min":
 		c.P, c.X, c.LW, c.Trim = [6]int{}, 0, 0, true
 	case "minlwork":
@@ -243,10 +244,10 @@ func drawValid(t *rapid.T) Case {
 	if c.Mode == "guardE" || c.Mode == "guardS" {
 		c.P, c.X, c.LW, c.Trim = [6]int{}, 0, 0, true
 	}
-	if sp.nd > 0 && rapid.IntRange(0, 9).Draw(t, "zero") < 4 {
-		c.D[rapid.IntRange(0, sp.nd-1).Draw(t, "zerodim")] = 0
+	if sp.nd > 0 && g.Intn(10) < 4 {
+		c.D[g.Intn(sp.nd)] = 0
 	}
-	c.Loose = rapid.IntRange(0, 2).Draw(t, "loose")
+	c.Loose = g.Intn(3)
 	return c
 }
 
